@@ -184,7 +184,7 @@ def defect_st(draw, t, atol):
         ratio = draw(gen.log_uniform(1e3, max(1e3 + 1, 1.0 / atol)))
     eps = min(ratio * atol, 1.0)
     df = {"kind": kind, "eps": float(eps), "band": band, "sign": draw(st.sampled_from([1.0, -1.0]))}
-    df["elem"] = draw(st.integers(0, 4))
+    df["elem"] = draw(st.integers(0, 11))
     df["col"] = draw(st.integers(0, 35))
     if t == "povm" and kind == "eq":
         df["raw_dir"] = draw(gen.raw(36))
@@ -199,7 +199,10 @@ def obj_st(t, shape_names):
     if t == "state":
         return gen.state_case(shape_names)
     if t == "povm":
-        return gen.povm_case(shape_names, (2, 5))
+        # (ten or more elements now and then - on the small systems, to keep the cost down: sizes at which a loop over the
+        # elements may have been replaced by a stacked computation)
+        small = tuple(s_ for s_ in shape_names if gen.dim_of(s_) <= 4) or shape_names
+        return st.one_of(*([gen.povm_case(shape_names, (2, 5))] * 7 + [gen.povm_case(small, (9, 12))]))
     if t == "gate":
         return gen.gate_case(shape_names)
     return gen.mprocess_case(shape_names, (2, 4))
